@@ -81,6 +81,32 @@ func (e *Engine) registerIntrinsics() {
 			}
 			return one(c.St, Ite(big, lim, sum))
 		}
+		e.intr[pp+".ndReaches"] = func(e *Engine, c *CallCtx) []Outcome {
+			buf := c.Args[1].(VSlice)
+			if buf.Obj == 0 {
+				return one(c.St, False)
+			}
+			seen := map[ObjID]bool{}
+			found := false
+			var visit func(id ObjID)
+			mark := func(id ObjID) {
+				if id == buf.Obj {
+					found = true
+					return
+				}
+				if !seen[id] {
+					seen[id] = true
+					visit(id)
+				}
+			}
+			visit = func(id ObjID) {
+				if o, ok := c.St.heap[id]; ok {
+					objectRefs(o, mark)
+				}
+			}
+			valueRefs(c.Args[0], mark)
+			return one(c.St, BoolC(found))
+		}
 		e.intr[pp+".ndConcrete"] = func(e *Engine, c *CallCtx) []Outcome {
 			t := c.Args[0].(*Term)
 			if k, ok := c.St.Conc(t); ok {
@@ -120,6 +146,38 @@ func (e *Engine) registerIntrinsics() {
 	e.intr["strings.Contains"] = intrStringsContains
 	e.intr["strings.HasPrefix"] = intrStringsHasPrefix
 	e.intr["strconv.Atoi"] = intrAtoi
+	e.intr["strings.EqualFold"] = func(e *Engine, c *CallCtx) []Outcome {
+		a, b := c.Args[0].(VString), c.Args[1].(VString)
+		if as, ok := a.Concrete(); ok {
+			if bs, ok := b.Concrete(); ok {
+				return one(c.St, BoolC(strings.EqualFold(as, bs)))
+			}
+		}
+		// ASCII case folding, byte-wise (non-ASCII bytes must be identical: Unicode-only folds are outside the model)
+		return one(c.St, StringEq(asciiMap(a, false), asciiMap(b, false)))
+	}
+	e.intr["strings.ToLower"] = func(e *Engine, c *CallCtx) []Outcome {
+		a := c.Args[0].(VString)
+		if as, ok := a.Concrete(); ok {
+			return one(c.St, ConstString(strings.ToLower(as)))
+		}
+		return one(c.St, asciiMap(a, false))
+	}
+	e.intr["strings.ToUpper"] = func(e *Engine, c *CallCtx) []Outcome {
+		a := c.Args[0].(VString)
+		if as, ok := a.Concrete(); ok {
+			return one(c.St, ConstString(strings.ToUpper(as)))
+		}
+		return one(c.St, asciiMap(a, true))
+	}
+	e.intr["strings.TrimSpace"] = func(e *Engine, c *CallCtx) []Outcome {
+		a := c.Args[0].(VString)
+		if as, ok := a.Concrete(); ok {
+			return one(c.St, ConstString(strings.TrimSpace(as)))
+		}
+		unsupported("strings.TrimSpace on a symbolic string at %s", c.Site)
+		return nil
+	}
 	e.intr["strconv.Itoa"] = func(e *Engine, c *CallCtx) []Outcome {
 		if v, ok := c.St.Conc(c.Args[0].(*Term)); ok {
 			return one(c.St, ConstString(strconv.Itoa(int(v.Int()))))
@@ -509,6 +567,21 @@ func intrStringsSplit(e *Engine, c *CallCtx) []Outcome {
 		es[i] = ConstString(p)
 	}
 	return one(c.St, e.newSlice(c.St, types.Typ[types.String], es, len(es), c.Site))
+}
+
+// asciiMap lower-cases (upper=false) or upper-cases the ASCII letters of s, byte-wise.
+func asciiMap(s VString, upper bool) VString {
+	bs := make([]*Term, len(s.B))
+	for i, b := range s.B {
+		if upper {
+			isL := And(CmpBV(OULe, BVC('a', 8), b), CmpBV(OULe, b, BVC('z', 8)))
+			bs[i] = Ite(isL, BinBV(OSub, b, BVC(32, 8)), b)
+		} else {
+			isU := And(CmpBV(OULe, BVC('A', 8), b), CmpBV(OULe, b, BVC('Z', 8)))
+			bs[i] = Ite(isU, BinBV(OAdd, b, BVC(32, 8)), b)
+		}
+	}
+	return VString{Len: s.Len, B: bs}
 }
 
 func containsAt(s VString, sub string, pos int) *Term {
